@@ -1138,10 +1138,11 @@ impl InstrFormat for OldeEclHooks {
         }
     }
 
-    fn write_instr(&self, f: &mut BinWriter, _: &dyn Emitter, instr: &RawInstr) -> WriteResult {
+    fn write_instr(&self, f: &mut BinWriter, emitter: &dyn Emitter, instr: &RawInstr) -> WriteResult {
+        llir::reject_end_marker_lookalike(emitter, instr.opcode == 0xffff)?;
         f.write_i32(instr.time)?;
         f.write_u16(instr.opcode)?;
-        f.write_i16(self.instr_size(instr) as _)?;
+        f.write_u16(llir::fit_header_field(emitter, "size", self.instr_size(instr))?)?;
 
         f.write_u8(0)?;
         f.write_u8(instr.difficulty)?;
@@ -1208,11 +1209,12 @@ impl InstrFormat for TimelineFormat06 {
         Ok(ReadInstr::Instr(instr))
     }
 
-    fn write_instr(&self, f: &mut BinWriter, _: &dyn Emitter, instr: &RawInstr) -> WriteResult {
-        f.write_i16(instr.time as _)?;
+    fn write_instr(&self, f: &mut BinWriter, emitter: &dyn Emitter, instr: &RawInstr) -> WriteResult {
+        llir::reject_end_marker_lookalike(emitter, instr.time == -1 && instr.extra_arg.unwrap_or(0) == 4)?;
+        f.write_i16(llir::fit_header_field(emitter, "time", instr.time)?)?;
         f.write_i16(instr.extra_arg.unwrap_or(0) as _)?;
         f.write_u16(instr.opcode)?;
-        f.write_u16(self.instr_size(instr) as _)?;
+        f.write_u16(llir::fit_header_field(emitter, "size", self.instr_size(instr))?)?;
         f.write_all(&instr.args_blob)?;
         Ok(())
     }
@@ -1249,10 +1251,10 @@ impl InstrFormat for TimelineFormat08 {
         Ok(ReadInstr::Instr(instr))
     }
 
-    fn write_instr(&self, f: &mut BinWriter, _: &dyn Emitter, instr: &RawInstr) -> WriteResult {
+    fn write_instr(&self, f: &mut BinWriter, emitter: &dyn Emitter, instr: &RawInstr) -> WriteResult {
         f.write_i32(instr.time as _)?;
         f.write_u16(instr.opcode)?;
-        f.write_u8(self.instr_size(instr) as _)?;
+        f.write_u8(llir::fit_header_field(emitter, "size", self.instr_size(instr))?)?;
         f.write_u8(instr.difficulty as _)?;
         f.write_all(&instr.args_blob)?;
         Ok(())
